@@ -134,3 +134,72 @@ def _in_re(interp, s, pattern):
         return False
     t = tm.T('str.in_re', (str_term(interp, s), tm.T('re', (), 'RegLan', regex_to_smt(pattern))), tm.BOOL)
     return SBool(t)
+
+
+# ---------------------------------------------------------------------------------------
+def n_calls(f):
+    """Ghost: how often the opaque callable `f` has been called."""
+    return f.calls
+
+
+@_sym(n_calls)
+def _n_calls(interp, f):
+    return len(f.calls)
+
+
+def is_1x1_of(result, v):
+    """result is the 1x1 object array [[v]] (identity of the element)."""
+    import numpy as np
+    return isinstance(result, np.ndarray) and result.shape == (1, 1) and result.dtype == object and result[0, 0] is v
+
+
+@_sym(is_1x1_of)
+def _is_1x1_of(interp, result, v):
+    import numpy as np
+    from .values import ArrVal
+    from .models import identical
+    if isinstance(result, np.ndarray):
+        if result.shape != (1, 1) or result.dtype != object:
+            return False
+        return identical(interp, result[0, 0], v)
+    if not isinstance(result, ArrVal) or len(result.rows) != 1 or len(result.rows[0]) != 1:
+        return False
+    return identical(interp, result.rows[0][0], v)
+
+
+def returned_by(result, f, i=0):
+    """result is the object returned by the i-th call of the opaque callable f."""
+    kind, o = f.outcomes[i]
+    return kind == 'return' and result is o
+
+
+@_sym(returned_by)
+def _returned_by(interp, result, f, i=0):
+    if i >= len(f.calls):
+        return False
+    kind, o = f.calls[i][2]
+    return kind == 'return' and result is o
+
+
+def raised_by(exc, f, i=0):
+    kind, o = f.outcomes[i]
+    return kind == 'raise' and exc is o
+
+
+@_sym(raised_by)
+def _raised_by(interp, exc, f, i=0):
+    if i >= len(f.calls):
+        return False
+    kind, o = f.calls[i][2]
+    return kind == 'raise' and exc is o
+
+
+
+def now_calls():
+    """Ghost: the instants returned by datetime.now() during this call (symbolic execution only)."""
+    raise NotImplementedError('ghost state: only meaningful under symbolic execution')
+
+
+@_sym(now_calls)
+def _now_calls(interp):
+    return list(interp.ctx.ghost.get('now_calls', []))
